@@ -60,6 +60,10 @@ def handle (tb : Tables) (c impl : T) : String :=
         ("D79", tb.dirRefTypeFirst, T.node "obs" [t, t, t], T.node "obs" [t, f, f])
       else if name.startsWith "repeated-union-member" then
         ("D89", tb.dupMembersAccepted, T.node "obs" [f, f, f], T.node "obs" [t, f, f])
+      else if name.startsWith "repeated-directive-on-a-type" then
+        ("D106", tb.dupDirectiveInlineAccepted, T.node "obs" [f, f, f], T.node "obs" [t, f, f])
+      else if name.startsWith "implied-schema-root-not-an-object" then
+        ("D105", tb.impliedSchemaUnvalidated, T.node "obs" [f, f, f], T.node "obs" [f, t, f])
       else if name.startsWith "extend-implied-schema" then
         ("D80", tb.extendSchemaNeedsSchema, T.node "obs" [t, t, t], T.node "obs" [f, t, f])
       else ("", false, T.node "obs" [t, t, t], T.node "obs" [t, t, t])
@@ -69,6 +73,6 @@ def handle (tb : Tables) (c impl : T) : String :=
   | _ => "bad-op"
 
 def flags (tb : Tables) : List (String × Bool) := [("D34", tb.assureOnce), ("D76", tb.inputExtendMapOrder), ("D78", tb.dirRequiredUnchecked), ("D79", tb.dirRefTypeFirst), ("D89", tb.dupMembersAccepted),
-   ("D80", tb.extendSchemaNeedsSchema)]
+   ("D80", tb.extendSchemaNeedsSchema), ("D105", tb.impliedSchemaUnvalidated), ("D106", tb.dupDirectiveInlineAccepted)]
 
 end Ggql.Driver.C16
